@@ -252,7 +252,7 @@ fn split_runs(seed: u64, idx: u64) -> Out {
 /// update rule on the sum of ITS per-sample gradients (own optimizer state per copy), then the
 /// copies are coupled by the arithmetic mean of the stepped values. Gradients are the library's
 /// own (hooked backward at the twin's weights), as in `runs`.
-fn block_twin(seed: u64, idx: u64) -> Out {
+pub fn block_twin(seed: u64, idx: u64) -> Out {
     use crate::monitors::c01::{coords, lib_grad_at};
     let mut rng = Rng::stream(seed, "block_twin", idx);
     let acts = [Act::Tanh, Act::Sigmoid, Act::Linear, Act::Leaky];
